@@ -21,6 +21,7 @@ pub assume_specification<T, F: FnMut(&T, &T) -> Ordering>[ <[T]>::sort_by ](s: &
         forall|a: &T, b: &T, c: &T, o1: Ordering, o2: Ordering, o3: Ordering| #![trigger cmp_ret(f, a, b, o1), cmp_ret(f, b, c, o2), cmp_ret(f, a, c, o3)] // [std.sort_by.pre.transitive]
             cmp_ret(f, a, b, o1) && cmp_ret(f, b, c, o2) && cmp_ret(f, a, c, o3) && o1 == o2 ==> o3 == o1,
     ensures
+        final(s)@.len() == old(s)@.len(),
         final(s)@.to_multiset() == old(s)@.to_multiset(), // permutation
         forall|i: int, j: int| #![trigger final(s)@[i], final(s)@[j]] 0 <= i < j < final(s)@.len() ==> // sorted w.r.t. the comparator
             exists|o: Ordering| #[trigger] cmp_ret(f, &final(s)@[i], &final(s)@[j], o) && o != Ordering::Greater,
